@@ -1,14 +1,75 @@
-//! Operations for C18 (see ops.rs). Fill in: return Some(outcome) for the ops this module owns.
+//! Operations for C18: PlainYearMonth / PlainMonthDay construction routes, canonical hidden part,
+//! whole-month arithmetic.
+//!
+//! A *route* is a JSON object describing one way of obtaining a value:
+//!   {"k":"str","s":"2020-05-17"}                       from_str
+//!   {"k":"date","d":{"y","m","d"}}                     PlainDate::to_plain_year_month / to_plain_month_day
+//!   {"k":"partial","p":{partial},"ovf":"constrain"}    PlainYearMonth::from_partial
+//!   {"k":"new","y","m","ovf"[,"rd"]}                   PlainYearMonth::new_with_overflow (rd = explicit reference day)
+//!   {"k":"new","m","d","ovf"[,"ry"]}                   PlainMonthDay::new_with_overflow (ry = explicit reference year)
+//!   {"k":"with","recv":{y,m[,rd]},"p":{partial},"ovf"} PlainYearMonth::with
 use crate::js::{self, big, int};
 use crate::ops::{utc, FS};
+use crate::ops_partial::{arg_ym, partial_date, ym_ref_day};
 use crate::proj::*;
 use serde_json::{json, Value};
+use std::str::FromStr;
 use temporal_rs::options::*;
 use temporal_rs::*;
 
-pub fn exec(op: &str, a: &Value) -> Option<Value> {
-    let _ = a;
-    match op {
-        _ => None,
+fn r_ovf(r: &Value) -> ArithmeticOverflow { arg_ovf(r).unwrap_or(ArithmeticOverflow::Constrain) }
+
+pub fn ym_route(r: &Value) -> TemporalResult<PlainYearMonth> {
+    match js::s(r, "k") {
+        "str" => PlainYearMonth::from_str(js::s(r, "s")),
+        "date" => arg_date(&r["d"])?.to_plain_year_month(),
+        "partial" => PlainYearMonth::from_partial(partial_date(&r["p"])?, r_ovf(r)),
+        "new" => PlainYearMonth::new_with_overflow(js::i(r, "y") as i32, js::i(r, "m") as u8, r.get("rd").and_then(|x| x.as_i64()).map(|x| x as u8), iso(), r_ovf(r)),
+        "with" => arg_ym(&r["recv"])?.with(partial_date(&r["p"])?, arg_ovf(r)),
+        k => panic!("year-month route {}", k),
     }
+}
+pub fn md_route(r: &Value) -> TemporalResult<PlainMonthDay> {
+    match js::s(r, "k") {
+        "str" => PlainMonthDay::from_str(js::s(r, "s")),
+        "date" => arg_date(&r["d"])?.to_plain_month_day(),
+        "new" => PlainMonthDay::new_with_overflow(js::i(r, "m") as u8, js::i(r, "d") as u8, iso(), r_ovf(r), r.get("ry").and_then(|x| x.as_i64()).map(|x| x as i32)),
+        k => panic!("month-day route {}", k),
+    }
+}
+
+/// visible fields, hidden reference day, both strings, month code
+pub fn p_ym_full(ym: &PlainYearMonth) -> Value {
+    json!({"y": int(ym.year() as i64), "m": int(ym.month() as i64), "rd": int(ym_ref_day(ym)),
+           "s": ym.to_ixdtf_string(DisplayCalendar::Auto), "sa": ym.to_ixdtf_string(DisplayCalendar::Always),
+           "mc": ym.month_code().as_str()})
+}
+pub fn p_md_full(md: &PlainMonthDay) -> Value {
+    json!({"m": int(md.iso_month() as i64), "d": int(md.iso_day() as i64), "ry": int(md.iso_year() as i64),
+           "s": md.to_ixdtf_string(DisplayCalendar::Auto), "sa": md.to_ixdtf_string(DisplayCalendar::Always),
+           "mc": md.month_code().as_str()})
+}
+fn p_ym3(ym: &PlainYearMonth) -> Value { crate::ops_partial::p_ym(ym) }
+
+pub fn exec(op: &str, a: &Value) -> Option<Value> {
+    Some(match op {
+        "PlainYearMonth.route" => run(|| ym_route(&a["route"]), p_ym_full),
+        "PlainMonthDay.route" => run(|| md_route(&a["route"]), p_md_full),
+        // two routes -> compare_iso, PartialEq, and whether the two print identically (both display modes)
+        "PlainYearMonth.cmp" => run(|| Ok((ym_route(&a["a"])?, ym_route(&a["b"])?)), |(x, y)| {
+            json!({"cmp": x.compare_iso(y) as i8, "eq": x == y,
+                   "same_s": x.to_ixdtf_string(DisplayCalendar::Auto) == y.to_ixdtf_string(DisplayCalendar::Auto),
+                   "same_sa": x.to_ixdtf_string(DisplayCalendar::Always) == y.to_ixdtf_string(DisplayCalendar::Always)})
+        }),
+        "PlainMonthDay.cmp" => run(|| Ok((md_route(&a["a"])?, md_route(&a["b"])?)), |(x, y)| {
+            json!({"eq": x == y,
+                   "same_s": x.to_ixdtf_string(DisplayCalendar::Auto) == y.to_ixdtf_string(DisplayCalendar::Auto),
+                   "same_sa": x.to_ixdtf_string(DisplayCalendar::Always) == y.to_ixdtf_string(DisplayCalendar::Always)})
+        }),
+        "PlainYearMonth.add" => run(|| arg_ym(&a["recv"])?.add(&arg_duration(&a["dur"])?, r_ovf(a)), p_ym3),
+        "PlainYearMonth.subtract" => run(|| arg_ym(&a["recv"])?.subtract(&arg_duration(&a["dur"])?, r_ovf(a)), p_ym3),
+        "PlainYearMonth.until" => run(|| arg_ym(&a["recv"])?.until(&arg_ym(&a["other"])?, arg_settings(&a["st"])?), p_duration),
+        "PlainYearMonth.since" => run(|| arg_ym(&a["recv"])?.since(&arg_ym(&a["other"])?, arg_settings(&a["st"])?), p_duration),
+        _ => return None,
+    })
 }
